@@ -171,6 +171,7 @@ RenameOuts(o, n) ==
    drop: chunks the operated names showed before and do not show afterwards; hl: those of them
    that other names of the same hard link still show (deviation hlFlag); lost: chunks of hard-link
    records whose names a recursive delete removed. *)
+PlainChunks(t) == UNION {t[q].chunks : q \in {f \in DOMAIN t : t[f].kind = "f" /\ t[f].link = 0}}
 GcOver(g, t2, l2, tn) == (g \cap Ref(t2, l2)) \ tn
 GcUnder(g, t2, l2, req, tn) == IF req THEN ((Ref(tree, links) \ Ref(t2, l2)) \ (g \cup gc)) \ tn ELSE {}
 GcExplained(g, t2, l2, req, tn, drop, lost) ==
